@@ -551,6 +551,11 @@ def twins(s, uri=False):
             out.append(s[:-1])
         else:
             out += [s + "/", s + "#"]
+        if "://" in s:
+            # scheme and host in another letter case, the path left alone (RFC 3986 6.2.2.1 calls these equivalent)
+            scheme, rest = s.split("://", 1)
+            host, slash, path = rest.partition("/")
+            out += [scheme.upper() + "://" + rest, scheme + "://" + host.upper() + slash + path, scheme + "://" + host.capitalize() + slash + path]
     return [x for x in dict.fromkeys(out) if x != s]
 
 
